@@ -557,6 +557,13 @@ class Node(
         # for them until the result of this very run has been processed (`_run`
         # snapshots the input, `_run_succeeded` records it)
         self._cached_inputs = None
+        # The same goes for every composite above us that is not itself running: its
+        # record vouches for what its children hold, and a child run by hand between two
+        # runs of the graph changes that
+        ancestor = self.parent
+        while ancestor is not None and not ancestor.running:
+            ancestor._cached_inputs = None
+            ancestor = ancestor.parent
         return result
 
     def _cache_snapshot(self) -> dict[str, Any]:
